@@ -721,7 +721,10 @@ pub fn c14(em: &mut Emit, _thorough: bool, _seed: u64) {
         .unwrap()
         .as_secs();
     let etags: [Option<&[u8]>; 3] = [None, Some(b"\"s1\""), Some(b"W/\"w1\"")];
-    let mtimes: [(&str, Option<(u64, u32)>); 7] = [
+    // `this-second` is resolved per case to 1 ns into the current wall-clock second: in the past,
+    // but in the same second as the request
+    let mtimes: [(&str, Option<(u64, u32)>); 8] = [
+        ("this-second", Some((u64::MAX, 1))),
         ("absent", None),
         ("epoch", Some((0, 0))),
         ("whole", Some((T0, 0))),
@@ -759,6 +762,14 @@ pub fn c14(em: &mut Emit, _thorough: bool, _seed: u64) {
                     let len = *flen;
                     let mut e = HEntity::new(len);
                     e.etag = et.map(|t| t.to_vec());
+                    let mt = &mt.map(|(s, n)| {
+                        if s == u64::MAX {
+                            let d = std::time::SystemTime::now().duration_since(UNIX_EPOCH).unwrap();
+                            (d.as_secs(), n.min(d.subsec_nanos()))
+                        } else {
+                            (s, n)
+                        }
+                    });
                     e.mtime = mt.map(|(s, n)| UNIX_EPOCH + Duration::new(s, n));
                     e.headers = hs.clone();
                     let mut q1 = HReq::get();
